@@ -170,6 +170,9 @@ func runC03(c *fw.Case) (o fw.Outcome) {
 	if c.Idx == 0 {
 		return c03Schema(c)
 	}
+	if c.Idx%5000 == 2477 {
+		return c03TwoLarge(c)
+	}
 	switch k := c.Idx % 10; {
 	case k <= 5:
 		ms := ngapMessages()
@@ -721,5 +724,57 @@ func c03Primitive(c *fw.Case) (o fw.Outcome) {
 	o.Count("primitive_encodings_compared", int64(n))
 	o.Digest = fw.HashS("prim", s.Kind, s.Tag, fmt.Sprint(round%rounds))
 	o.Nontrivial = n >= 8
+	return
+}
+
+// c03TwoLarge: a message with TWO large open types one after the other - the first beyond 64K (whatever an encoder keeps
+// growing has grown by then), the second in the range where its length determinant is fragmented (16K and more, with a
+// two-octet remainder or several fragments): UE RADIO CAPABILITY INFO INDICATION with a UE Radio Capability of 66 .. 140
+// thousand octets and a UE Radio Capability for Paging of 16.5 .. 50 thousand. What one IE needs while it is put together
+// must not depend on what the IE before it left behind.
+func c03TwoLarge(c *fw.Case) (o fw.Outcome) {
+	r := c.R
+	n1 := pick(r, 66000, 74000, 100000, 131072+5, 65536+r.Intn(70000))
+	n2 := pick(r, 16384+128, 16600, 20000, 24200, 32768+200, 49152+300, 16384+128+r.Intn(30000))
+	var m ngapType.UERadioCapabilityInfoIndication
+	add := func(id int64, f func(v *ngapType.UERadioCapabilityInfoIndicationIEsValue)) {
+		ie := ngapType.UERadioCapabilityInfoIndicationIEs{}
+		ie.Id.Value, ie.Criticality.Value = id, aper.Enumerated(r.Intn(3))
+		f(&ie.Value)
+		m.ProtocolIEs.List = append(m.ProtocolIEs.List, ie)
+	}
+	add(10, func(v *ngapType.UERadioCapabilityInfoIndicationIEsValue) {
+		v.Present = ngapType.UERadioCapabilityInfoIndicationIEsPresentAMFUENGAPID
+		v.AMFUENGAPID = &ngapType.AMFUENGAPID{Value: r.Int63n(1 << 40)}
+	})
+	add(85, func(v *ngapType.UERadioCapabilityInfoIndicationIEsValue) {
+		v.Present = ngapType.UERadioCapabilityInfoIndicationIEsPresentRANUENGAPID
+		v.RANUENGAPID = &ngapType.RANUENGAPID{Value: r.Int63n(1 << 32)}
+	})
+	add(117, func(v *ngapType.UERadioCapabilityInfoIndicationIEsValue) {
+		v.Present = ngapType.UERadioCapabilityInfoIndicationIEsPresentUERadioCapability
+		v.UERadioCapability = &ngapType.UERadioCapability{Value: rbytes(r, n1)}
+	})
+	add(118, func(v *ngapType.UERadioCapabilityInfoIndicationIEsValue) {
+		v.Present = ngapType.UERadioCapabilityInfoIndicationIEsPresentUERadioCapabilityForPaging
+		v.UERadioCapabilityForPaging = &ngapType.UERadioCapabilityForPaging{UERadioCapabilityForPagingOfNR: &ngapType.UERadioCapabilityForPagingOfNR{Value: rbytes(r, n2)}}
+		if r.Intn(2) == 0 {
+			v.UERadioCapabilityForPaging.UERadioCapabilityForPagingOfEUTRA = &ngapType.UERadioCapabilityForPagingOfEUTRA{Value: rbytes(r, pick(r, 1, 200, 16384, 17000))}
+		}
+	})
+	var pdu ngapType.NGAPPDU
+	pdu.Present = ngapType.NGAPPDUPresentInitiatingMessage
+	pdu.InitiatingMessage = &ngapType.InitiatingMessage{}
+	pdu.InitiatingMessage.ProcedureCode.Value = ngapType.ProcedureCodeUERadioCapabilityInfoIndication
+	pdu.InitiatingMessage.Criticality.Value = 1
+	pdu.InitiatingMessage.Value.Present = ngapType.InitiatingMessagePresentUERadioCapabilityInfoIndication
+	pdu.InitiatingMessage.Value.UERadioCapabilityInfoIndication = &m
+	what := fmt.Sprintf("UERadioCapabilityInfoIndication with capabilities of %d and %d octets", n1, n2)
+	ref := compareEncodings(&o, pdu, pduTag, what, false)
+	o.Tag("two-large-open-types")
+	o.Digest, o.Nontrivial = fw.Hash(ref), len(ref) > n1
+	o.Max("largest_encoding_octets", int64(len(ref)))
+	o.Count("pdus_compared", 1)
+	o.Input = what
 	return
 }
